@@ -266,4 +266,12 @@ theorem contactResiduePairs_eq (t : List Atom) (a : ContactArgs) :
     simp only [Spec.Contact.residuePairMap, distinct_eq, sortDistinct_eq, resLt_eq]
     rfl
 
+/-- the two-chain call with `extend_to_residue=True`, in the Spec's words (used by the score routines' zone computation) -/
+theorem contactSets_two_chain_extended (t : List Atom) (a : ContactArgs) (hall : a.allchains = false) (hne : a.chain1 ≠ a.chain2)
+    (h1 : a.chain1 ∈ getChains t) (h2 : a.chain2 ∈ getChains t) (hext : a.extend = true) :
+    contactSets t a = .ok
+      [(a.chain1, Spec.Contact.extension backbone t (Spec.Contact.contactAtoms (params a) t a.chain1 a.chain2) a.bb),
+       (a.chain2, Spec.Contact.extension backbone t (Spec.Contact.contactAtoms (params a) t a.chain2 a.chain1) a.bb)] := by
+  simp [contactSets, contactRun_two_chain' t a hall hne h1 h2, Except.map, extendIf, hext, extendToResidue_eq]
+
 end Proofs.Contacts
